@@ -4,6 +4,8 @@ import ScyllaVerif.Model.Exec
 /-! Line-protocol driver for C06 (deterministic: the implementation's line is ignored).
 
 * `dec <policy>/<i|n> - <cl>:<err>;<cl>:<err>;…`  — one retry session fed a history; prints its decisions.
+* `runx fallthrough/<i|n> <cl0>/<plan> <err>~<decision>;…;ok` — the fiber under a SCRIPTED retry policy (a test
+  `RetryPolicy` answering the i-th failure with the i-th scripted decision).
 * `run <policy>/<i|n> <cl0>/<plan> <outcome>;<outcome>;…` — the execution fiber over `plan` (`1` = the target
   yields a connection, `0` = choosing a connection fails, `-` = empty plan); outcome `ok` or an error token;
   attempts beyond the scripted outcomes succeed.  Prints the attempt log, the decisions, the result, the
@@ -145,6 +147,30 @@ def finalName : Final → String
   | .exhausted none => "err:emptyplan"
   | .outOfFuel => "MODEL-OUT-OF-FUEL"
 
+def parseDec (s : String) : Option Decision :=
+  match s.splitOn ":" with
+  | ["dont"] => some .dontRetry
+  | ["ignore"] => some .ignoreWrite
+  | ["same"] => some (.retrySame none)
+  | ["next"] => some (.retryNext none)
+  | ["same", c] => (parseCl c).map (fun c => .retrySame (some c))
+  | ["next", c] => (parseCl c).map (fun c => .retryNext (some c))
+  | _ => none
+
+/-- `ok` or `<err>~<decision>` (the scripted policy's answer to that failure). -/
+def parseScriptedOp (s : String) : Option (Outcome × Decision) :=
+  if s == "ok" then some (.ok, .dontRetry) else
+  match s.splitOn "~" with
+  | [e, d] => match parseErr e, parseDec d with
+    | some e, some d => some (.fail e, d)
+    | _, _ => none
+  | _ => none
+
+def showTrace (tr : Trace) : String :=
+  let a := listOrDash (tr.attempts.map (fun a => s!"{a.target}:{clName a.cl}")) ","
+  let d := listOrDash (tr.decisions.map decName) ","
+  s!"A={a} D={d} R={finalName tr.final} S={tr.newSessions}"
+
 def run (case _impl : String) : String :=
   match words case with
   | ["dec", pol, _, steps] =>
@@ -156,10 +182,18 @@ def run (case _impl : String) : String :=
     | some (p, idem), [c, pl] =>
       match parseCl c, parsePlan pl, (parseOps outs).mapM parseOutcome with
       | some cl0, some plan, some os =>
-        let tr := Exec.run p idem cl0 plan (fun k => os.getD k .ok)
-        let a := listOrDash (tr.attempts.map (fun a => s!"{a.target}:{clName a.cl}")) ","
-        let d := listOrDash (tr.decisions.map decName) ","
-        s!"A={a} D={d} R={finalName tr.final} S={tr.newSessions}"
+        showTrace (Exec.run p idem cl0 plan (fun k => os.getD k .ok))
+      | _, _, _ => "bad-case"
+    | _, _ => "bad-case"
+  | ["runx", pol, clplan, outs] =>
+    -- the execution loop under a scripted retry policy (every decision arm, every consistency)
+    match parsePolicy pol, clplan.splitOn "/" with
+    | some (.fallthrough, idem), [c, pl] =>
+      match parseCl c, parsePlan pl, (parseOps outs).mapM parseScriptedOp with
+      | some cl0, some plan, some ops =>
+        let os := ops.map (·.1)
+        let ds := ops.map (·.2)
+        showTrace (Exec.runWith (scripted ds) idem cl0 plan (fun k => os.getD k .ok) (plan.length + ops.length + 2))
       | _, _, _ => "bad-case"
     | _, _ => "bad-case"
   | _ => "bad-case"
